@@ -1,6 +1,7 @@
 (* Runner for property C07: wire arguments -> model -> wire result.
-     c07 canon <flags> x<json text>    flags: bit 0 fix_comma, 1 fix_negfloat, 2 fix_eof, 3 fix_range, 4 fix_nullkey
-                                        (31 = the fixed code = `canon`, 0 = the unfixed tree = `canon_today`)
+     c07 canon <flags> x<json text>    flags: bit 0 fix_comma, 1 fix_negfloat, 2 fix_eof, 3 fix_range, 4 fix_nullkey,
+                                        5 fix_negzero (63 = the fixed code = `canon`, 31 = `canon_signed_zero`,
+                                        0 = the tree as first examined = `canon_today`)
        -> ( ok x<canonical bytes> ) | ( err <kind> ) | ( err panic )
      c07 norm x<json text>  -> ( ok x<print (norm (parse text))> ) | ( err <kind> )   (the specification reading)
      c07 premise x<json text> -> 1 | 0 | ( err <kind> ): floats_okb (parse text), the premise of the round-trip theorems
@@ -24,7 +25,7 @@ Definition enc_result (r : result bytes) : list V :=
   end.
 
 Definition cfg_of_flags (z : Z) : cfg :=
-  mkCfg (Z.testbit z 0) (Z.testbit z 1) (Z.testbit z 2) (Z.testbit z 3) (Z.testbit z 4).
+  mkCfg (Z.testbit z 0) (Z.testbit z 1) (Z.testbit z 2) (Z.testbit z 3) (Z.testbit z 4) (Z.testbit z 5).
 
 Definition run_c07 (args : list V) : list V :=
   match args with
